@@ -326,8 +326,9 @@ def soft_raw(logits, tau=1.0):
 
 def hard_raw(logits, tau=1.0):
     x = torch.nn.functional.softmax(logits / tau, dim=-1)
-    # Straight through.
-    index = x.max(-1, keepdim=True)[1]
+    # Straight through. The gate is the argmax of the logits themselves (as in eval mode): after the division,
+    # exp and normalisation two different logits can round to the same softmax value
+    index = logits.max(-1, keepdim=True)[1]
     x_hard = torch.zeros_like(
         logits, memory_format=torch.legacy_contiguous_format
     ).scatter_(-1, index, 1.0)
